@@ -1,4 +1,4 @@
 From Coq Require Import Extraction ExtrOcamlBasic.
 From OC Require Import Base.Bytes Model.P2Pure Model.Proto2 Model.P2Inst Model.Proto2Queue Model.P2QInst.
-Extraction "model.ml" q_step q_step_fx mkFixes q_init q_enabled q_all_ctrls q_summary o_quiet p2_reconcile qw queue
+Extraction "model.ml" q_step q_init q_enabled q_all_ctrls q_summary o_quiet p2_reconcile qw queue
   w_txs w_props w_cfgs w_targets w_rels w_conns.
